@@ -9,7 +9,7 @@ func main() {
 		Property:   "C01",
 		Rule:       "random DB programs (Put/Delete/batch incl. oversized/Get/Has/scan/snapshots/CompactRange/reopen/transactions) x option lattice x 4 comparers; after every 8th write and at checkpoints Get/Has of every pool key + 4 absent keys and a full scan are compared with a Go map; non-trivial = the run installed >=1 table compaction and populated >=2 levels",
 		Header:     "From GL Require Import Corr.C01Run.",
-		QuickProgs: 240, QuickOps: 300, ThorProgs: 2000, ThorOps: 1200,
+		QuickProgs: 560, QuickOps: 300, ThorProgs: 2000, ThorOps: 1200,
 		Weights: dbh.DefaultWeights(), CheckEvery: 8,
 		KPrefixes: []string{"KGet"}, KCapQuick: 320, KCapThor: 1600, KPerRun: 3,
 		NonTrivial: func(s map[string]int) bool { return s["table_compactions"] >= 1 && s["max_levels"] >= 2 },
